@@ -165,7 +165,15 @@ def judge_c05(H):
             if not jt:
                 continue
             t_join_reply = jt[0]
-            revs = [t for t in rev_end.get(inc, []) if t <= t_join_reply + 1e-9]
+            # the revoke callback belonging to this join = the member's last one that STARTED before the JoinGroup reply;
+            # its end counts even when it comes after the reply (a member that joins without waiting for its callback)
+            starts = [t for (t, _tps) in rev_start_tps.get(inc, []) if t <= t_join_reply + 1e-9]
+            revs = []
+            if starts:
+                ends = [t for t in rev_end.get(inc, []) if t >= starts[-1] - 1e-9]
+                killed_at = [e["t"] for e in H["events"] if e["m"] == inc and e["op"] in ("kill",)]
+                if ends and not (killed_at and killed_at[0] < ends[0]):
+                    revs = [ends[0]]
             asgs = [t for t in asg_start.get(inc, []) if t >= ent["synced_at"] - 1e-9]
             # the assigned callback of THIS generation is the first one after the generation was synced and before
             # the member's next successful join
@@ -178,10 +186,21 @@ def judge_c05(H):
             if asgs:
                 a = asgs[0]
                 first_asg = (a, inc) if first_asg is None or a < first_asg[0] else first_asg
-            if not revs:
+            # a member that holds nothing has nothing to revoke: the callback is only demanded of a member that still
+            # held partitions (an assigned callback with a non-empty set and no revoke callback since)
+            held = False
+            for ev_ in H["events"]:
+                if ev_["m"] != inc or ev_["t"] > t_join_reply + 1e-9:
+                    continue
+                if ev_["op"] == "assigned.start":
+                    held = bool(ev_["tps"])
+                elif ev_["op"] == "revoked.start":
+                    held = False
+            if held:
                 V.append(("member_joined_generation_without_finishing_revoke_callback",
-                          f"generation {gen}: {inc} got a JoinGroup reply at t={t_join_reply} but no on_partitions_revoked "
-                          "callback of it had finished before", {"generation": gen, "member": inc}))
+                          f"generation {gen}: {inc} got a JoinGroup reply at t={t_join_reply} while it still held the partitions "
+                          "of its last on_partitions_assigned: no on_partitions_revoked callback had started since",
+                          {"generation": gen, "member": inc}))
         if last_rev and first_asg:
             st["barriers_checked"] += 1
             st["members_in_barriers"] += members
